@@ -50,6 +50,7 @@ func checkC02(ctx *Ctx, r *Report) {
 	c02PythonValueFormatter(ctx, r)
 	c02GoImportsUsed(ctx, r)
 	c02PythonIdentifierCharacters(ctx, r)
+	c02EqualityTypeChecks(ctx, r)
 }
 
 // kindConsts: the constants of ast.Kind / ast.ScalarKind.
@@ -1857,4 +1858,37 @@ func c02PythonIdentifierCharacters(ctx *Ctx, r *Report) {
 	})
 	r.Count("from_json hints built from field names", n)
 	r.Floor("from_json hints built from field names", 1)
+}
+
+// c02EqualityTypeChecks: the clauses of the Go equality template that decide whether the generated Equals
+// type-checks (C13 decides them for equality proper): bytes compared with bytes.Equal.
+func c02EqualityTypeChecks(ctx *Ctx, r *Report) {
+	ts, err := loadTemplates(ctx, "golang")
+	if err != nil {
+		r.Undecided("cannot parse golang templates: %v", err)
+		return
+	}
+	tree := ts.trees[recEquality.define]
+	if tree == nil {
+		r.Undecided("anchor lost: template %q", recEquality.define)
+		return
+	}
+	var top *parse.IfNode
+	for _, n := range tree.Root.Nodes {
+		if in, ok := n.(*parse.IfNode); ok {
+			top = in
+			break
+		}
+	}
+	if top == nil {
+		r.Undecided("anchor lost: dispatch of %q", recEquality.define)
+		return
+	}
+	sub := newReport(ctx, r.Property)
+	c13HuntedRules(ctx, sub, ts, ifChain(top))
+	for _, o := range sub.Obls {
+		if o.Rule == "skeleton/equality-bytes" {
+			r.Obls = append(r.Obls, o)
+		}
+	}
 }
